@@ -53,7 +53,7 @@ func (Engine) Describe(prop string) core.Description {
 			"the document's own Links map is not part of what the statement protects (MarshalDocument adds the self link to it)",
 			"every permutation of a map's iteration order is a legal behaviour of the Go runtime",
 		}
-		d.Probes = []string{"twin-permuted-tomany", "twin-permuted-included", "twin-permuted-fields", "adversarial-map-order", "kind-nil", "kind-resource", "kind-softcollection", "kind-resources", "kind-wrappercollection", "kind-identifier", "kind-identifiers", "with-errors", "with-included"}
+		d.Probes = []string{"twin-permuted-tomany", "twin-permuted-included", "twin-permuted-fields", "adversarial-map-order", "kind-nil", "kind-resource", "kind-softcollection", "kind-resources", "kind-wrappercollection", "kind-identifier", "kind-identifiers", "with-errors", "with-included", "document-and-url-reused-after-edit", "resource-with-copy-on-read-get", "many-included"}
 	case "C03":
 		d.Stub = []string{"independent JSON:API document-structure validator (written from the JSON:API grammar, not from the library)"}
 		d.Rule = "one run = one seeded schema (names and IDs that JSON must escape included), a document whose primary data is a resource / SoftCollection / WrapperCollection / Resources, a history of 0..12 Document.Include calls (repeats, primary-data resources, same ID under another type), marshaled under a seeded map order and validated: JSON object, jsonapi member, self link, data xor errors, included only with data, resource objects (type, id, self link = prefix+type+id), relationship objects (self/related links, data shape), no type/ID pair twice across primary data and included; " +
@@ -62,7 +62,7 @@ func (Engine) Describe(prop string) core.Description {
 			"IDs are non-empty; identifiers as primary data do not count as duplicates of an included resource",
 			"the uniqueness clause is checked only when included resources were added through Include (as the statement says)",
 		}
-		d.Probes = []string{"include-repeat", "include-primary-resource", "include-same-id-other-type", "include-on-resources-collection", "include-on-softcollection", "include-on-wrappercollection", "include-on-single-resource", "doc-with-errors", "exotic-names"}
+		d.Probes = []string{"include-repeat", "include-primary-resource", "include-same-id-other-type", "include-on-resources-collection", "include-on-softcollection", "include-on-wrappercollection", "include-on-single-resource", "doc-with-errors", "exotic-names", "primary-member-replaced-between-includes", "earlier-payload-revalidated"}
 	}
 
 	return d
@@ -220,7 +220,13 @@ func runC11(t *core.Tape, st *core.Stats) *core.Violation {
 		return nil
 	}
 
-	ds := world.DrawDoc(t, spec, world.DocOptions{MaxPrimary: 6, MaxIncluded: 5, DistinctIncl: true, Errors: true})
+	maxIncl := t.Bound(5, 12)
+	if t.Bool(1, 80) {
+		maxIncl = 90 // a long included list now and then (batching / parallel paths)
+		st.Inc("probe:many-included")
+	}
+
+	ds := world.DrawDoc(t, spec, world.DocOptions{MaxPrimary: 6, MaxIncluded: maxIncl, MinIncluded: maxIncl / 2 * (maxIncl / 90), DistinctIncl: true, Errors: true})
 	t.Logf("%s", ds.Describe())
 	st.Inc("probe:kind-" + ds.Kind)
 
@@ -237,13 +243,18 @@ func runC11(t *core.Tape, st *core.Stats) *core.Violation {
 		url *jsonapi.URL
 	}
 
+	cor := t.Bool(1, 4)
+	if cor {
+		st.Inc("probe:resource-with-copy-on-read-get")
+	}
+
 	build := func(rng *core.Rng, mo *core.MapOrder) (*built, *core.Violation) {
 		var (
 			b   built
 			err error
 		)
 
-		p := core.Call(func() { mo.With(func() { b.doc, b.url, err = ds.Materialise(schema, world.MatOptions{Rng: rng}) }) })
+		p := core.Call(func() { mo.With(func() { b.doc, b.url, err = ds.Materialise(schema, world.MatOptions{Rng: rng, CopyOnRead: cor}) }) })
 		st.MapOrder(mo)
 
 		if p != nil {
@@ -254,6 +265,28 @@ func runC11(t *core.Tape, st *core.Stats) *core.Violation {
 			st.Inc("probe:document-refused")
 			t.Logf("document refused: %v", err)
 
+			return nil, nil
+		}
+
+		return &b, nil
+	}
+
+	buildSpec := func(d *world.DocSpec) (*built, *core.Violation) {
+		var (
+			b   built
+			err error
+		)
+
+		mo := core.DrawMapOrder(t)
+		p := core.Call(func() { mo.With(func() { b.doc, b.url, err = d.Materialise(schema, world.MatOptions{CopyOnRead: cor}) }) })
+		st.MapOrder(mo)
+
+		if p != nil {
+			return nil, viol(P, "no-panic", p.Func, "materialise:"+p.Class, "building the document panicked: %s", p.Value)
+		}
+
+		if err != nil {
+			st.Inc("probe:document-refused")
 			return nil, nil
 		}
 
@@ -297,6 +330,8 @@ func runC11(t *core.Tape, st *core.Stats) *core.Violation {
 	if v != nil || first == nil {
 		return v
 	}
+
+	firstCopy := string(first)
 
 	again, v := marshal(b0, core.DrawMapOrder(t), "again")
 	if v != nil {
@@ -391,7 +426,136 @@ func runC11(t *core.Tape, st *core.Stats) *core.Violation {
 
 	st.State(core.HashString(string(first)))
 
+	// 5. "depends only on content": the same Document and URL values, edited in place
+	// (another included list of the same length, a narrower field selection, another
+	// page number), must marshal like freshly built ones with that content; and the
+	// bytes returned by the first call must still be what they were.
+	if string(first) != firstCopy {
+		return viol(P, "returned-bytes-stable", "MarshalDocument", ds.Kind, "the bytes returned by the first MarshalDocument call changed after later calls\n    were: %s\n    are:  %s", firstCopy, first)
+	}
+
+	if t.Bool(1, 2) {
+		ds2 := *ds
+		edits := ""
+
+		if len(ds.Included) > 0 && t.Bool(2, 3) {
+			taken := map[string]bool{}
+			ds2.Included = nil
+
+			for range ds.Included {
+				ts := spec.Types[t.Draw(len(spec.Types))]
+				id := fmt.Sprintf("n%d", t.Draw(50))
+
+				for taken[id] {
+					id += "x"
+				}
+
+				taken[id] = true
+				ds2.Included = append(ds2.Included, world.DrawResSpec(t, ts, id))
+			}
+
+			edits += " included replaced by as many other resources;"
+		}
+
+		ds2.FieldSel = map[string][]string{}
+
+		for k, v := range ds.FieldSel {
+			ds2.FieldSel[k] = v
+		}
+
+		narrowed := ""
+
+		for _, k := range sortedStrKeys(ds.FieldSel) {
+			if len(ds.FieldSel[k]) >= 2 && t.Bool(1, 2) {
+				ds2.FieldSel[k] = ds.FieldSel[k][:len(ds.FieldSel[k])-1]
+				narrowed = k
+				edits += fmt.Sprintf(" fields[%s] narrowed;", k)
+
+				break
+			}
+		}
+
+		if edits != "" {
+			st.Inc("probe:document-and-url-reused-after-edit")
+
+			fresh, v := buildSpec(&ds2)
+			if v != nil || fresh == nil {
+				return v
+			}
+
+			// apply the same edits to the values that have been marshaled already
+			if p := core.Call(func() {
+				// the URL is printed once more right before it is edited: nothing that
+				// remembers the last text printed may outlive the edit
+				_ = b0.url.String()
+				b0.doc.Included = fresh2Included(&ds2, schema, cor)
+
+				if narrowed != "" {
+					want := map[string]bool{}
+					for _, n := range ds2.FieldSel[narrowed] {
+						want[n] = true
+					}
+
+					var kept []string
+
+					for _, n := range b0.url.Params.Fields[narrowed] {
+						if want[n] {
+							kept = append(kept, n)
+						}
+					}
+
+					b0.url.Params.Fields[narrowed] = kept
+				}
+			}); p != nil {
+				return viol(P, "no-panic", p.Func, "edit-in-place:"+p.Class, "editing the document in place panicked: %s", p.Value)
+			}
+
+			t.Logf("edited in place:%s", edits)
+
+			reused, v := marshal(b0, core.DrawMapOrder(t), "same values edited in place")
+			if v != nil {
+				return v
+			}
+
+			want, v := marshal(fresh, core.DrawMapOrder(t), "freshly built with the edited content")
+			if v != nil {
+				return v
+			}
+
+			if reused != nil && want != nil && string(reused) != string(want) {
+				return viol(P, "depends-only-on-content", "MarshalDocument", ds.Kind+":"+diffWhere(want, reused), "a document and URL that were marshaled before and then edited in place (%s) marshal differently from freshly built ones with the same content\n    fresh:  %s\n    reused: %s", edits, want, reused)
+			}
+		}
+	}
+
 	return nil
+}
+
+func sortedStrKeys(m map[string][]string) []string {
+	ks := make([]string, 0, len(m))
+	for k := range m {
+		ks = append(ks, k)
+	}
+
+	sort.Strings(ks)
+
+	return ks
+}
+
+// fresh2Included materialises the included list of a spec.
+func fresh2Included(ds *world.DocSpec, schema *jsonapi.Schema, cor bool) []jsonapi.Resource {
+	var out []jsonapi.Resource
+
+	for _, rs := range ds.Included {
+		var r jsonapi.Resource = rs.Clone().Materialise(schema)
+		if cor {
+			r = world.CopyOnRead{Resource: r}
+		}
+
+		out = append(out, r)
+	}
+
+	return out
 }
 
 // diffWhere names the top-level member in which two outputs first differ.
